@@ -8,6 +8,7 @@ import PieModel.Build.Script
 import PieModel.Build.StdSem
 import PieModel.Build.ScriptWF.Defs
 import PieModel.Build.ScriptCov.Defs
+import PieModel.Build.ScriptCov2.Defs
 
 namespace Driver
 open PieModel
@@ -281,7 +282,7 @@ def stepB (b : BState) (line : String) : Option BState :=
 `Props/ScriptWF.lean`) evaluated on the program table of the case. -/
 def hypLine (tbl : List (Nat × Script)) : String :=
   let b := fun (x : Bool) => if x then "1" else "0"
-  s!"m: hyp wf={b (Table.wfB tbl)} free={b (Table.wfFreeB tbl)} static={b (Table.staticRolesB tbl)} total={b (Table.stampTotalB tbl)} nofail={b (Table.noFailB tbl)} cov={b (Table.covB tbl)}"
+  s!"m: hyp wf={b (Table.wfB tbl)} free={b (Table.wfFreeB tbl)} static={b (Table.staticRolesB tbl)} total={b (Table.stampTotalB tbl)} nofail={b (Table.noFailB tbl)} cov={b (Table.covB tbl)} wfcov={b (Table.wfCovB tbl)}"
 
 def runBuildCase (lines : List String) : List String :=
   let rec go (b : BState) : List String → List String
